@@ -72,7 +72,72 @@ def corrupt_unusedimport(recs):
     return i
 
 
-SUITES = [("callgraph", corrupt_callgraph), ("springapi", corrupt_springapi), ("javamodel", corrupt_javamodel),
+def corrupt_todo(recs):
+    i = _first(recs, lambda r: r["observed"]["todos"])
+    recs[i]["observed"]["todos"][0]["line"] += 1
+    return i
+
+
+def corrupt_arch(recs):
+    i = _first(recs, lambda r: r["observed"]["hasGraph"] and len(r["observed"]["graph"]["nodes"]) > 1)
+    recs[i]["observed"]["graph"]["nodes"].pop()
+    return i
+
+
+def corrupt_fronts(recs):
+    i = _first(recs, lambda r: any(f["types"] or f["funcs"] for f in r["observed"]["files"]))
+    for f in recs[i]["observed"]["files"]:
+        if f["types"]:
+            f["types"][0]["name"] += "Corrupted"
+            break
+        if f["funcs"]:
+            f["funcs"][0]["name"] += "Corrupted"
+            break
+    return i
+
+
+def corrupt_deps(recs):
+    i = _first(recs, lambda r: any(e["deps"] for e in r["observed"]["extract"]))
+    for e in recs[i]["observed"]["extract"]:
+        if e["deps"]:
+            e["deps"][0]["artifact"] += "-corrupted"
+            break
+    return i
+
+
+def corrupt_badsmell(recs):
+    i = _first(recs, lambda r: any(x["kind"] == "longParameterList" for x in r["observed"]["api"]))
+    for x in recs[i]["observed"]["api"]:
+        if x["kind"] == "longParameterList":
+            x["size"] += 1
+            break
+    return i
+
+
+def corrupt_testsmell(recs):
+    i = _first(recs, lambda r: r["observed"]["findings"])
+    recs[i]["observed"]["findings"][0]["line"] += 1000
+    return i
+
+
+def corrupt_cloc(recs):
+    i = _first(recs, lambda r: any(row["cells"] and row["summary"] > 0 for row in r["observed"]["bydir"]["csv"]["rows"]))
+    for row in recs[i]["observed"]["bydir"]["csv"]["rows"]:
+        if row["cells"] and row["summary"] > 0:
+            row["summary"] += 1
+            break
+    return i
+
+
+def corrupt_stats(recs):
+    i = _first(recs, lambda r: r["observed"]["eval"]["done"] and r["observed"]["eval"]["methods"] > 0)
+    recs[i]["observed"]["eval"]["methods"] += 1
+    return i
+
+
+SUITES = [("todo", corrupt_todo), ("arch", corrupt_arch), ("fronts", corrupt_fronts), ("deps", corrupt_deps),
+          ("badsmell", corrupt_badsmell), ("testsmell", corrupt_testsmell), ("cloc", corrupt_cloc), ("stats", corrupt_stats),
+          ("callgraph", corrupt_callgraph), ("springapi", corrupt_springapi), ("javamodel", corrupt_javamodel),
           ("gitlog", corrupt_gitlog), ("rename", corrupt_rename), ("unusedimport", corrupt_unusedimport)]
 
 
@@ -87,19 +152,30 @@ def main():
             env["VERIF_COCA"] = V.build_coca()
         wd = V.workdir("selftest-" + sname)
         env["VERIF_SCRATCH"] = wd
-        V.run_harness(b, ["gen", "-seed", "7", "-n", "30"], stdout_path=wd + "/c.ndjson", env=env)
+        V.run_harness(b, ["gen", "-seed", "7", "-n", "40"], stdout_path=wd + "/c.ndjson", env=env)
         V.run_harness(b, ["run"], stdin_path=wd + "/c.ndjson", stdout_path=wd + "/t.ndjson", env=env, cwd=wd)
         tm, tc = plan["trace"]
         d0, n, unj = V.validate_trace(tm, tc, wd + "/t.ndjson", "st", shards=1)
         recs = V.read_ndjson(wd + "/t.ndjson")
         recs2 = copy.deepcopy(recs)
-        idx = corrupt(recs2)
+        try:
+            idx = corrupt(recs2)
+        except TypeError:
+            idx = None
+        if idx is None:
+            print("%-13s no record to corrupt in the sample" % sname)
+            ok = False
+            continue
         V.write_ndjson(wd + "/t2.ndjson", recs2)
         d1, n1, unj1 = V.validate_trace(tm, tc, wd + "/t2.ndjson", "st", shards=1)
-        hit = any(i == idx for i, _ in d1)
-        print("%-13s clean trace: %d records, %d discrepancies; one field of record %d corrupted -> %s"
-              % (sname, n, len(d0), idx, "REJECTED by TLC" if hit else "NOT detected"))
-        ok = ok and not d0 and hit
+        # discrepancies of the clean trace may only be listed known findings (by their spec-computed tags)
+        known = {f["tag"] for f in V.load_known().get("findings", [])}
+        unknown0 = [(i, it) for i, items in d0 for it in items if not (set(it.get("tags") or []) & known)]
+        items0 = {i: {json.dumps(it, sort_keys=True) for it in items} for i, items in d0}
+        hit = any(i == idx and {json.dumps(it, sort_keys=True) for it in items} - items0.get(i, set()) for i, items in d1)
+        print("%-13s clean trace: %d records, %d discrepancies outside the known findings; one field of record %d corrupted -> %s"
+              % (sname, n, len(unknown0), idx, "REJECTED by TLC" if hit else "NOT detected"))
+        ok = ok and not unknown0 and hit
         # line accounting: a trace file with one line removed is validated as a shorter trace, never as the full one
         V.write_ndjson(wd + "/t3.ndjson", recs[1:])
         d2, n2, _ = V.validate_trace(tm, tc, wd + "/t3.ndjson", "st", shards=1)
